@@ -2,6 +2,7 @@ import PrysmVerif.Generated.C12
 import PrysmVerif.Lemmas.C12Sound
 import PrysmVerif.Lemmas.C12Stats
 import PrysmVerif.Lemmas.C12Crop
+import PrysmVerif.Lemmas.C12LS
 /-!
 # C12 — Interferogram data, mask and coordinates stay coherent over any history
 
@@ -334,6 +335,36 @@ theorem tilt_removal_idempotent (l : List (K × K × K))
 theorem power_removal_idempotent (l : List (K × K × K))
     (hdet : (sums l).aa * (sums l).bb - (sums l).ab * (sums l).ab ≠ 0) : (fit2 (removeFirst l)).1 = 0 :=
   fit2_removeFirst l hdet
+
+/-- least-squares removal, ANY number of design columns, ANY subset `S` of removed columns, NO rank assumption: if `c` solves
+    the normal equations of the fit to `z`, then `c` with the removed coefficients set to 0 solves the normal equations of the
+    fit to the data after removal — re-fitting CAN find nothing for the removed terms (tilt: 2 columns, all removed; power:
+    columns `rho^2, 1`, the first removed) -/
+theorem ls_removal_residual_solves {m k : Nat} (A : Fin m → Fin k → K) (z : Fin m → K) (c : Fin k → K) (S : Finset (Fin k))
+    (h : C12L.NormalEq A z c) : C12L.NormalEq A (C12L.removeCols A z c S) (fun l => if l ∈ S then 0 else c l) :=
+  C12L.removed_solves A z c S h
+
+/-- ... and with independent columns (the Gram matrix has trivial kernel) EVERY re-fit finds exactly 0 for every removed
+    column: removal is idempotent, for any number of columns and any removed subset -/
+theorem ls_removal_idempotent {m k : Nat} (A : Fin m → Fin k → K) (z : Fin m → K) (c c' : Fin k → K) (S : Finset (Fin k))
+    (hind : ∀ d : Fin k → K, (∀ j, ∑ i, A i j * ∑ l, A i l * d l = 0) → d = 0)
+    (h : C12L.NormalEq A z c) (h' : C12L.NormalEq A (C12L.removeCols A z c S) c') : ∀ l ∈ S, c' l = 0 :=
+  C12L.refit_zero A z c c' S hind h h'
+
+/-- non-vacuity: a one-column design of ones has independent columns, and the mean solves its normal equations -/
+example : (∀ d : Fin 1 → ℚ, (∀ j : Fin 1, ∑ i : Fin 2, (fun (_ : Fin 2) (_ : Fin 1) => (1 : ℚ)) i j *
+      ∑ l : Fin 1, (fun (_ : Fin 2) (_ : Fin 1) => (1 : ℚ)) i l * d l = 0) → d = 0) ∧
+    C12L.NormalEq (fun (_ : Fin 2) (_ : Fin 1) => (1 : ℚ)) ![1, 3] (fun _ => 2) := by
+  constructor
+  · intro d h
+    have := h 0
+    funext l
+    fin_cases l
+    simp at this
+    simpa using this
+  · intro j
+    simp [Fin.sum_univ_two]
+    norm_num
 
 /-- the fitted coefficients are the least-squares ones: they solve the normal equations -/
 theorem fit_solves_normal_equations (l : List (K × K × K))
